@@ -25,6 +25,8 @@ import copy
 import os
 import shutil
 
+from hypothesis import strategies as st
+
 from ..core import Ctx, Violation, explore, known_open_sigs
 from ..gen import c19_dosini as G
 
@@ -356,10 +358,84 @@ def sweep(ctx: Ctx):
         ctx.rec.count("table_keys", len(G.KEYS))
 
 
+# ------------------------------------------------------------------------------------------------------------
+# sub `reconf`: the configuration object that owns the legacy files (DOSINIExperimentConfiguration): a package becomes
+# an instance (createInstanceFiles), the instance is loaded again with a user variable file and updateInstanceFiles;
+# the instance files must then describe the configuration that was just built.
+@st.composite
+def reconf_cases(draw):
+    """Small valid legacy packages (the generator C15 uses for its legacy kind) + one user variable to layer on top."""
+    from ..gen import c15_pkgs
+    spec = draw(c15_pkgs.dosini_spec())
+    which = draw(st.sampled_from(["word", "word", "count"]))
+    return {"files": spec["files"], "user_variable": which,
+            "user_value": draw(st.sampled_from(["user-word", "other"])) if which == "word" else str(draw(st.integers(2, 9)))}
+
+
+def check_reconf(case, ctx: Ctx):
+    import experiment.model.conf as C
+    import experiment.model.frontends.dosini as D
+    import experiment.model.frontends.flowir as F
+    from ..gen import pkg
+    loc = ctx.mkdtemp()
+    try:
+        pdir = os.path.join(loc, "legacy.package")
+        conf = os.path.join(pdir, "conf")
+        pkg.populate_files(pdir, {k: v for k, v in case["files"].items() if ".instance." not in k})
+        name = case["user_variable"]
+        uv = os.path.join(loc, "uservars.conf")
+        with open(uv, "w") as f:
+            f.write("[GLOBAL]\n%s = %s\n" % (name, case["user_value"]))
+        try:
+            C.DOSINIExperimentConfiguration(pdir, None, [], {}, is_instance=False, createInstanceFiles=True)
+            written = C.DOSINIExperimentConfiguration(pdir, None, [uv], {}, is_instance=True, createInstanceFiles=True,
+                                                      updateInstanceFiles=True)
+        except Exception as e:           # packages this route refuses are not this sub-check's subject
+            ctx.rec.label("reconf:refused:" + type(e).__name__)
+            return
+        want = written.get_unreplicated_flowir()
+        errors = []
+        try:
+            loaded = F.FlowIRConcrete(D.Dosini().load_from_directory(conf, [], {}, is_instance=True, out_errors=errors),
+                                      F.FlowIR.LabelDefault, {})
+        except Exception as e:
+            raise Violation(_exc_sig("reconf-load-raises", e), "instance files written by the configuration object do not "
+                            "load: %r" % e)
+
+        def resolved(c):
+            out = {}
+            for cid in sorted(c.get_component_identifiers(False)):
+                try:
+                    out[cid] = _norm_config(c.get_component_configuration(cid, raw=False, include_default=True,
+                                                                          is_primitive=True))
+                except Exception as e:
+                    out[cid] = {"#raises": type(e).__name__}
+            return out
+        a, b = resolved(want), resolved(loaded)
+        if sorted(a) != sorted(b):
+            raise Violation("reconf-component-set-differs", "configuration %s, instance files %s" % (sorted(a), sorted(b)))
+        for cid in sorted(a):
+            if "#raises" in a[cid] or "#raises" in b[cid]:
+                continue
+            for path, x, y in _diff(a[cid], b[cid]):
+                if x == [] and isinstance(y, list):
+                    continue
+                raise Violation("reconf-instance-files-do-not-describe-the-configuration:" + _strip_index(path),
+                                "after reloading the instance with user variable %s: component stage%s.%s %s: "
+                                "configuration %r, instance files %r" % (name, cid[0], cid[1], path, x, y))
+        ctx.rec.label("reconf:compared")
+        ctx.rec.nt(["reconf", case], {"user_variable": name, "components": len(a)}, group="reconf")
+    finally:
+        shutil.rmtree(loc, ignore_errors=True)
+
+
 def shard(ctx: Ctx):
     sweep(ctx)
+    explore(ctx, "reconf", reconf_cases(), check_reconf, ctx.n(160, 6000), batch=20)
     explore(ctx, "roundtrip", G.case_strategy(MODES), check_case, ctx.n(2400, 80000), batch=150)
 
 
 def replay(sub, case, ctx: Ctx):
+    if sub == "reconf":
+        return check_reconf(case, ctx)
     check_case(case, ctx, sub=sub or "roundtrip")
